@@ -10,8 +10,8 @@
    whole constraint trees against CtSpec.per_effective (crange_effective); that
    statement is refuted by four witnesses below and otherwise only tested by the
    check's oracle. *)
-From Coq Require Import ZArith List Bool.
-From A1 Require Import Fix.Crange Fix.PerOerVisible Fix.CtSpec Fix.CrangeProofs Fix.PerOerProofs.
+From Coq Require Import ZArith List Bool Permutation.
+From A1 Require Import Fix.Crange Fix.PerOerVisible Fix.CtSpec Fix.CrangeProofs Fix.PerOerProofs Fix.CtNest Fix.CtNestProofs.
 Import ListNotations.
 Local Open Scope Z_scope.
 
@@ -121,3 +121,108 @@ Theorem C09_crange_effective_refuted_unconstrained_ext : exists chain,
   accepted chain /\ e_empty (per_effective false chain) = false /\ ~ crange_effective_at chain.
 Proof. exact crange_effective_refuted_unconstrained_ext. Qed.
 Print Assumptions C09_crange_effective_refuted_unconstrained_ext.
+
+(* ==== nested extension markers (Fix/CtNest.v, Fix/CtNestProofs.v) ====
+   Markers inside the operands of set arithmetic — SIZE(...) operands; the grammar
+   has no other nested marker.  Spec: X.680 G.4 extensibility of set arithmetic
+   (CtNest.next); model: the operand loop of ACT_CA_UNI / ACT_CA_CSV in
+   asn1constraint_compute_constraint_range with _range_merge_in. *)
+
+(* Spec: the flag of a union does not depend on the order of the operands ... *)
+Theorem C09_ext_union_comm : forall a b, next (NUnion a b) = next (NUnion b a).
+Proof. exact next_union_comm. Qed.
+Print Assumptions C09_ext_union_comm.
+
+(* ... it is the disjunction over the operands, for unions of any length ... *)
+Theorem C09_ext_union_is_disjunction : forall a l, next (nunions a l) = existsb next (a :: l).
+Proof. exact next_nunions_all. Qed.
+Print Assumptions C09_ext_union_is_disjunction.
+
+(* ... hence invariant under every permutation of the operands *)
+Theorem C09_ext_union_perm : forall a l b l',
+  Permutation (a :: l) (b :: l') -> next (nunions a l) = next (nunions b l').
+Proof. exact next_nunions_perm. Qed.
+Print Assumptions C09_ext_union_perm.
+
+(* the "first operand only" reading is neither *)
+Theorem C09_ext_first_operand_only_refuted : exists a b,
+  next_first (NUnion a b) <> next_first (NUnion b a) /\
+  next_first (NUnion a b) <> (next a || next b).
+Proof. exact next_first_refuted. Qed.
+Print Assumptions C09_ext_first_operand_only_refuted.
+
+(* model: folding the computed operands with _range_merge_in gives the disjunction
+   of their flags, in any order *)
+Theorem C09_merge_fold_ext_is_disjunction : forall rest first,
+  r_ext (uni_fold range_merge_in first rest) = r_ext first || existsb r_ext rest.
+Proof. exact uni_fold_ext. Qed.
+Print Assumptions C09_merge_fold_ext_is_disjunction.
+
+Theorem C09_merge_fold_ext_perm : forall a l b l',
+  Permutation (a :: l) (b :: l') ->
+  r_ext (uni_fold range_merge_in a l) = r_ext (uni_fold range_merge_in b l').
+Proof. exact uni_fold_ext_perm. Qed.
+Print Assumptions C09_merge_fold_ext_perm.
+
+(* without `into->extensible |= cr->extensible` in _range_merge_in the flag
+   depends on the order of two non-empty operands *)
+Theorem C09_merge_without_ext_refuted : exists a b,
+  r_empty a = false /\ r_empty b = false /\
+  r_ext (uni_fold merge_in_noext a [b]) <> r_ext (uni_fold merge_in_noext b [a]) /\
+  r_ext (uni_fold merge_in_noext a [b]) <> (r_ext a || r_ext b).
+Proof. exact uni_fold_noext_refuted. Qed.
+Print Assumptions C09_merge_without_ext_refuted.
+
+(* model: Crange.compute on a union node whose operands compute to compatible,
+   PER-visible ranges IS that fold (any number of operands) ... *)
+Theorem C09_compute_union_is_fold : forall rq v minmax c t cs ts,
+  op_ok rq v minmax c t -> Forall2 (op_ok rq v minmax) cs ts ->
+  forall ex, exists ex',
+    compute (PUni (c :: cs)) rq v minmax ex =
+    (ROk (range_canonicalize (uni_fold range_merge_in (first_acc minmax t) ts)), ex').
+Proof. exact compute_uni_is_fold. Qed.
+Print Assumptions C09_compute_union_is_fold.
+
+(* ... so the extensible flag of the computed union is the disjunction of the
+   operands' flags (and the parent's) ... *)
+Theorem C09_compute_union_ext : forall rq v minmax c t cs ts,
+  op_ok rq v minmax c t -> Forall2 (op_ok rq v minmax) cs ts ->
+  forall ex, exists r ex',
+    compute (PUni (c :: cs)) rq v minmax ex = (ROk r, ex') /\
+    r_ext r = r_ext (match minmax with Some m => m | None => range_new end) || existsb r_ext (t :: ts).
+Proof. exact compute_uni_ext. Qed.
+Print Assumptions C09_compute_union_ext.
+
+(* ... and two unions over the same operands in different orders get the same flag *)
+Theorem C09_compute_union_ext_perm : forall rq v minmax c t cs ts c' t' cs' ts',
+  op_ok rq v minmax c t -> Forall2 (op_ok rq v minmax) cs ts ->
+  op_ok rq v minmax c' t' -> Forall2 (op_ok rq v minmax) cs' ts' ->
+  Permutation (t :: ts) (t' :: ts') ->
+  forall ex1 ex2, exists r1 e1 r2 e2,
+    compute (PUni (c :: cs)) rq v minmax ex1 = (ROk r1, e1) /\
+    compute (PUni (c' :: cs')) rq v minmax ex2 = (ROk r2, e2) /\
+    r_ext r1 = r_ext r2.
+Proof. exact compute_uni_ext_perm. Qed.
+Print Assumptions C09_compute_union_ext_perm.
+
+(* a SIZE operand is computed in the same state whatever precedes it *)
+Theorem C09_size_operand_state_independent : forall c v minmax ex,
+  compute (PSize c) ReqSize v minmax ex = compute (PSize c) ReqSize v minmax true.
+Proof. exact compute_size_exmet. Qed.
+Print Assumptions C09_size_operand_state_independent.
+
+(* whole expressions, model vs Spec: the un-parenthesised SEQUENCE SIZE(..,...) OF
+   spelling loses its marker (finding C09-bare-size-marker-lost) and a constraint
+   on a reference to such a type reaches an assert (C09-bare-size-child-assert) *)
+Theorem C09_nested_effective_refuted_bare_size : exists chain,
+  e_empty (nper_effective chain) = false /\
+  nper_size_row TSequenceOf (npullup false chain) = tables_of (nper_effective chain) /\
+  nper_size_row TSequenceOf (npullup true chain) <> tables_of (nper_effective chain).
+Proof. exact bare_size_marker_refuted. Qed.
+Print Assumptions C09_nested_effective_refuted_bare_size.
+
+Theorem C09_bare_size_child_asserts : exists chain,
+  ncompute_top TSequenceOf (npullup true chain) ReqSize VisNone = TAbort /\
+  exists r, ncompute_top TSequenceOf (npullup false chain) ReqSize VisNone = TOk r.
+Proof. exact bare_size_child_asserts. Qed.
+Print Assumptions C09_bare_size_child_asserts.
